@@ -367,6 +367,20 @@ def past_static(cfg, strict_before, t):
 # one block = one configuration, searched breadth-first to the depth bound
 # ---------------------------------------------------------------------------------------------------
 def run_block(block):
+    rep = _run_block(block)
+    return rep
+
+
+def _run_block(block):
+    import time
+    cpu0 = time.process_time()
+    rep = _search(block)
+    # CPU time is recorded as evidence only (the machine may be shared); it never steers the exploration
+    rep.count('cpu_ms', int((time.process_time() - cpu0) * 1000))
+    return rep
+
+
+def _search(block):
     rep = core.Report()
     t, charsub, reserved, sp = block['template'], block['charsub'], block['reserved'], block['spelling']
     depth = block['depth']
